@@ -493,6 +493,8 @@ def gen_atten(rng, maxn=10):
         steps = sorted({b - a for a, b in zip(t, t[1:])}) or [60]
         P = rng.choice(steps) * rng.choice([1, 1, 2, 3]) + rng.choice([0, 0, 1, -1])
         P = max(1, P)
+        if rng.random() < 0.2:
+            P = F(P) + rng.choice([F(1, 2), -F(1, 2), F(1, 4)])      # a period that is not a whole number of seconds ("90.5s")
         case["period"] = F(P)
         r = rng.random()
         if r < 0.3:
